@@ -165,7 +165,7 @@ enum EvKind {
 pub const SEC: u64 = 1_000_000_000;
 
 pub fn simulate(spec: &NetSpec, faults: &[(u64, Fault)], choices: &mut Choices, snapshot_every_ns: u64) -> SimResult {
-    let insts: Vec<PtpInstance<RecFilter, TrackLock>> = spec.nodes.iter().map(|n| PtpInstance::new(n.instance_config(), default_time_properties())).collect();
+    let insts: Vec<PtpInstance<RecFilter, TrackLock>> = spec.nodes.iter().map(|n| PtpInstance::new(n.instance_config(), n.time_properties())).collect();
     // one rng fraction per port: a single choice point each (default mid, alternatives low/high)
     let mut specs = spec.nodes.clone();
     for n in specs.iter_mut() {
